@@ -35,6 +35,7 @@ CodePoint(c) ==
     [] c = "0" -> 48 [] c = "1" -> 49 [] c = "8" -> 56 [] c = "9" -> 57
     [] c = "MINUS" -> 45 [] c = "DOT" -> 46 [] c = "PLUS" -> 43 [] c = "SLASH" -> 47 [] c = "US" -> 95
     [] c = "HASH" -> 35 [] c = "COMMA" -> 44 [] c = "U4" -> 128512
+    [] c = "NB" -> 160 [] c = "LS" -> 8232     \* Unicode White_Space / line separator that GraphQL treats as ordinary characters
 ClassText(c) ==
   CASE c = "EU" -> "E" [] c = "US" -> "_" [] c = "MINUS" -> "-" [] c = "DOT" -> "." [] c = "PLUS" -> "+" [] OTHER -> c
 
